@@ -1433,6 +1433,67 @@ def partial_rule(ctx, P):
         ctx.check(r, ok, key(f, "release-by-mode"), f.where(f.root), "%s no longer selects the 2-d release of the mapped weights by the sendump_mmap field" % name)
 
 
+UNBOUNDED_STR = ("strlen", "strcmp", "strcpy", "strcat", "strchr", "strrchr", "strstr", "atoi", "atof", "strtol", "strtod", "sscanf", "__ckd_salloc__", "strdup", "strcasecmp", "strcmp_nocase")
+
+
+def model_text_rule(ctx, P, fns):
+    """Text kept *inside* the image of a model file (the phone names of a binary model definition): a pointer that
+    is, or is computed from, the raw cursor of the s3file (or a private copy of the remaining bytes) points at
+    bytes nothing has delimited yet.  A string primitive that runs to the next NUL may only be applied to it after
+    a search for that NUL bounded by the end of the data (memchr(p, 0, end - p) != NULL)."""
+    r = ctx.rule("SPAN.model-text", "a pointer that is (or is computed from) the raw cursor of a model file, or a private copy of the rest of the file, is handed to a primitive that runs to the next NUL (strlen, strcmp, strcpy, ...) only where a search for that NUL bounded by the end of the data has succeeded for the same pointer", floor=1)
+    n = 0
+    for f in fns:
+        sp = [p_[0] for p_ in f.params if "s3file" in (p_[3] or p_[1] or "")]
+        if not sp:
+            continue
+        sname = sp[0]
+        # roots: lvalue paths assigned the cursor (through casts), or filled by s3file_get(.., 1, <rest>, s) as bytes
+        def root_of(path):
+            return re.sub(r"\[[^\]]*\]", "[]", path)
+        roots = set()
+        for st in paths.stores(f):
+            if st["rhs"] is None or st["op"] != "=":
+                continue
+            rc = f.canon(st["rhs"], subst=False)
+            if re.fullmatch(r"\(*%s->ptr\)*" % re.escape(sname), rc.replace("(char *)", "").replace("(void *)", "").strip()):
+                roots.add(root_of(st["path"]))
+        for c in f.calls("s3file_get"):
+            a = f.args(c)
+            if len(a) >= 4 and f.constval(a[1]) == 1:
+                roots.add(root_of(f.canon(a[0], subst=False)))
+        changed = True
+        while changed:
+            changed = False
+            for st in paths.stores(f):
+                if st["rhs"] is None or st["op"] != "=" or root_of(st["path"]) in roots:
+                    continue
+                t = f.nodes[st["lhs"]].get("ct", f.nodes[st["lhs"]].get("t", ""))
+                if "char" not in t or "*" not in t:
+                    continue
+                if any(f.k(j) in ("Member", "DeclRef", "Subscript") and root_of(f.canon(j, subst=False)) in roots for j in f.walk(st["rhs"])):
+                    roots.add(root_of(st["path"]))
+                    changed = True
+        if not roots:
+            continue
+        ctx.touch(f)
+        for c in f.find("Call"):
+            cal = f.nodes[c].get("callee")
+            if cal not in UNBOUNDED_STR:
+                continue
+            for a in f.args(c)[:2]:
+                ac = f.canon(a, subst=False)
+                if root_of(ac) not in roots:
+                    continue
+                n += 1
+
+                def bounded(fn, cc, pol, ac=ac):
+                    at = paths.cond_atoms(fn, cc, pol, subst=False)
+                    return at is not None and at[1] is True and str(at[0]).startswith("memchr(%s, 0," % ac)
+                ctx.check(r, paths.guarded(f, _elem_of(f, c), bounded), key(f, "%s(%s)#%d" % (cal, root_of(ac), n)), f.where(c), "`%s(%s)` runs to the next NUL in bytes that come straight from the model file (`%s` is computed from the file's cursor) and nothing has established that there is one before the end of the data: a file truncated inside the text is read past the end of its buffer" % (cal, ac, ac))
+    ctx.check(r, True, "census:model-text", "src", "", "%d uses of NUL-terminated primitives on in-image text" % n)
+
+
 def run(ctx):
     P = ctx.P
     fns = loader_functions(P)
@@ -1454,5 +1515,6 @@ def run(ctx):
     region_rule(ctx, P, fns)
     unwind_rule(ctx, P, fns)
     partial_rule(ctx, P)
+    model_text_rule(ctx, P, fns)
     from . import c10
     c10.span_rule(ctx, P, fns, floor=12)
